@@ -2,6 +2,7 @@ import inspect
 import math
 import re
 import sys
+import threading
 import warnings
 import ast
 from collections import OrderedDict
@@ -409,6 +410,9 @@ def _run_pretty(pretty_fn, value, ctx, trailing_comment=None):
 
 
 _DEFERRED_DISPATCH_BY_NAME = {}
+# Guards the check-pop-register sequence in is_registered, so that the
+# first prints of a lazily registered type may happen concurrently.
+_DEFERRED_LOCK = threading.RLock()
 
 
 def get_deferred_key(type):
@@ -569,15 +573,16 @@ def is_registered(
         # on which other values were printed before.
         found_deferred = False
         candidates = type.__mro__ if check_superclasses else (type, )
-        for candidate in candidates:
-            deferred_key = get_deferred_key(candidate)
-            if deferred_key in _DEFERRED_DISPATCH_BY_NAME:
-                found_deferred = True
-                if register_deferred:
-                    deferred_dispatch = _DEFERRED_DISPATCH_BY_NAME.pop(
-                        deferred_key
-                    )
-                    register_pretty(candidate)(deferred_dispatch)
+        with _DEFERRED_LOCK:
+            for candidate in candidates:
+                deferred_key = get_deferred_key(candidate)
+                if deferred_key in _DEFERRED_DISPATCH_BY_NAME:
+                    found_deferred = True
+                    if register_deferred:
+                        deferred_dispatch = _DEFERRED_DISPATCH_BY_NAME.pop(
+                            deferred_key
+                        )
+                        register_pretty(candidate)(deferred_dispatch)
         if found_deferred:
             return True
 
